@@ -772,6 +772,12 @@ class ConditionBinaryOp(ConditionLike):
         return null_condition_binary_check(*conditions) or super().__new__(cls)
 
     def __init__(self, *conditions):
+        if null_condition_binary_check(*conditions) is not None:
+            # `__new__` returned an existing (non-null) operand; if that operand is
+            # itself an instance of this class, Python calls `__init__` on it again,
+            # so make sure we do not re-initialise (and so corrupt) it:
+            return
+
         super().__init__()
 
         self.children = conditions
